@@ -1,10 +1,218 @@
 import Pun.Model.MixedUp
 import Pun.Props.C13
+import Mathlib.Data.List.Nodup
+import Mathlib.Data.List.Basic
+/-!
+# C14 — mixed propagation outputs are mixtures of interval images of input alpha-cuts
+
+About the functions the driver executes: `Pun.MixedUp.levelTuples`, `gridLevels`,
+`alphaCut`, `cutBox`, `propagate`, `slicing`, `imc`.
+Reproducibility of interval Monte Carlo is a runtime fact about the copula
+sampler (tested by the harness), not a theorem: in the model the sample is an input.
+-/
 set_option linter.unusedSimpArgs false
 set_option linter.unusedVariables false
 namespace Pun.MixedUp
 open Pun Pun.Arith Pun.Expr Pun.B2B
 
-theorem placeholder_c14 : (1 : Nat) = 1 := rfl
+/-! ## every combination of grid levels, exactly once -/
+
+theorem forall₂_replicate_iff {α : Type} (g : List α) (d : Nat) (t : List α) :
+    List.Forall₂ (fun a l => a ∈ l) t (List.replicate d g) ↔ t.length = d ∧ ∀ a ∈ t, a ∈ g := by
+  induction d generalizing t with
+  | zero =>
+    simp only [List.replicate_zero, List.forall₂_nil_right_iff]
+    constructor
+    · rintro rfl; simp
+    · rintro ⟨h, _⟩; exact List.length_eq_zero_iff.mp h
+  | succ k ih =>
+    simp only [List.replicate_succ, List.forall₂_cons_right_iff]
+    constructor
+    · rintro ⟨a, t', ha, ht', rfl⟩
+      obtain ⟨h1, h2⟩ := (ih t').mp ht'
+      refine ⟨by simp [h1], ?_⟩
+      intro b hb
+      simp only [List.mem_cons] at hb
+      rcases hb with rfl | hb
+      · exact ha
+      · exact h2 b hb
+    · rintro ⟨h1, h2⟩
+      cases t with
+      | nil => simp at h1
+      | cons a t' =>
+        refine ⟨a, t', h2 a (by simp), (ih t').mpr ⟨by simpa using h1, fun b hb => h2 b (by simp [hb])⟩, rfl⟩
+
+/-- ★ (membership) a tuple of levels is propagated iff it has one entry per input, each a grid level -/
+theorem grid_complete_mem (grid : List Rat) (d : Nat) (t : List Rat) :
+    t ∈ levelTuples grid d ↔ t.length = d ∧ ∀ a ∈ t, a ∈ grid := by
+  unfold levelTuples
+  rw [mem_prodL]
+  exact forall₂_replicate_iff grid d t
+
+theorem length_flatMap_const {α β : Type} (l : List α) (f : α → List β) (c : Nat) (h : ∀ a, (f a).length = c) :
+    (l.flatMap f).length = l.length * c := by
+  induction l with
+  | nil => simp
+  | cons a l ih => simp only [List.flatMap_cons, List.length_append, ih, h, List.length_cons]; ring
+
+theorem length_prodL_replicate {α : Type} (g : List α) (d : Nat) : (prodL (List.replicate d g)).length = g.length ^ d := by
+  induction d with
+  | zero => simp [prodL]
+  | succ k ih =>
+    simp only [List.replicate_succ, prodL]
+    rw [length_flatMap_const _ _ (g.length ^ k) (fun a => by simp [ih]), pow_succ, Nat.mul_comm]
+
+/-- ★ (count) exactly `k^d` tuples are propagated -/
+theorem grid_complete_count (grid : List Rat) (d : Nat) : (levelTuples grid d).length = grid.length ^ d :=
+  length_prodL_replicate grid d
+
+theorem nodup_prodL {α : Type} (ls : List (List α)) (h : ∀ l ∈ ls, l.Nodup) : (prodL ls).Nodup := by
+  induction ls with
+  | nil => simp [prodL]
+  | cons l ls ih =>
+    have hl : l.Nodup := h l (by simp)
+    have ht : (prodL ls).Nodup := ih (fun m hm => h m (by simp [hm]))
+    simp only [prodL]
+    rw [List.nodup_flatMap]
+    refine ⟨fun a _ => ht.map (fun x y hxy => by simpa using hxy), ?_⟩
+    refine hl.pairwise_of_forall_ne ?_ |>.imp (fun h => h)
+    intro a ha b hb hab
+    simp only [Function.onFun, List.disjoint_left, List.mem_map]
+    rintro t ⟨u, _, rfl⟩ ⟨v, _, hv⟩
+    simp only [List.cons.injEq] at hv
+    exact hab hv.1.symm
+
+/-- ★ (once) with distinct grid levels no tuple is propagated twice; together with membership and count:
+slicing uses every one of the `k^d` combinations exactly once -/
+theorem grid_complete_nodup (grid : List Rat) (d : Nat) (hg : grid.Nodup) : (levelTuples grid d).Nodup :=
+  nodup_prodL _ (fun l hl => by rw [List.eq_of_mem_replicate hl]; exact hg)
+
+example : levelTuples [1, 2] 2 = [[1, 1], [1, 2], [2, 1], [2, 2]] := by decide +kernel
+
+/-! ## the output is the stack of the b2b images of the cut boxes -/
+
+/-- ★ `slicing` is, by definition of the model, one `b2b` image per level tuple of the box of alpha-cuts at
+those levels, in order; `imc` the same for the sampled level matrix -/
+theorem output_is_stack (φ : UFun → Rat → Rat) (e : Expr) (pv : List Rat) (vars : List PB) (grid : List Rat)
+    (s : Strategy) (style : Option Style) (n : Option Nat) (out : List Val)
+    (h : slicing φ e pv vars grid s style n = .ok out) :
+    List.Forall₂ (fun row r => ∃ box, cutBox pv vars row = .ok box ∧ b2b φ e .list box s style n = .ok r)
+      (levelTuples grid vars.length) out := by
+  have := mapM_ok _ _ _ h
+  refine this.imp ?_
+  intro row r hr
+  simp only [bind, Except.bind] at hr
+  split at hr
+  · cases hr
+  · rename_i box hbox; exact ⟨box, hbox, hr⟩
+
+theorem imc_is_stack (φ : UFun → Rat → Rat) (e : Expr) (pv : List Rat) (vars : List PB) (levels : List (List Rat))
+    (s : Strategy) (style : Option Style) (n : Option Nat) (out : List Val)
+    (h : imc φ e pv vars levels s style n = .ok out) :
+    List.Forall₂ (fun row r => ∃ box, cutBox pv vars row = .ok box ∧ b2b φ e .list box s style n = .ok r) levels out := by
+  have := mapM_ok _ _ _ h
+  refine this.imp ?_
+  intro row r hr
+  simp only [bind, Except.bind] at hr
+  split at hr
+  · cases hr
+  · rename_i box hbox; exact ⟨box, hbox, hr⟩
+
+/-! ## an alpha-cut is one of the p-box's own steps -/
+
+/-- the cut returned for a level is the pair `(left[i], right[i])` for the nearest-level index `i`, and is a valid interval -/
+theorem alphaCut_spec (pv : List Rat) (P : PB) (a : Rat) (c : Rat × Rat) (h : alphaCut pv P a = .ok c) :
+    P.left[findNearest pv a]? = some c.1 ∧ P.right[findNearest pv a]? = some c.2 ∧ c.1 ≤ c.2 := by
+  unfold alphaCut at h
+  simp only at h
+  split at h
+  · rename_i l r hl hr
+    split at h
+    · cases h; exact ⟨hl, hr, by assumption⟩
+    · cases h
+  · cases h
+
+/-- ★ all inputs intervals: a p-box whose steps all equal `(lo, hi)` is cut to `(lo, hi)` at every level
+(so every focal element is the same `b2b` image of the box of intervals) -/
+theorem all_intervals_cut (pv : List Rat) (lo hi : Rat) (m : Nat) (a : Rat) (hlh : lo ≤ hi)
+    (hi' : findNearest pv a < m) :
+    alphaCut pv ⟨List.replicate m lo, List.replicate m hi⟩ a = .ok (lo, hi) := by
+  unfold alphaCut
+  simp [List.getElem?_replicate, hi', hlh]
+
+/-- ★ all inputs precise: a p-box with `left = right` is cut to a zero-width interval at every level -/
+theorem precise_cut_degenerate (pv : List Rat) (P : PB) (hP : P.left = P.right) (a : Rat) (c : Rat × Rat)
+    (h : alphaCut pv P a = .ok c) : c.1 = c.2 := by
+  obtain ⟨h1, h2, _⟩ := alphaCut_spec pv P a c h
+  rw [hP] at h1
+  rw [h1] at h2
+  exact Option.some.inj h2
+
+theorem corners_degenerate (box : Box) (hd : ∀ p ∈ box, p.1 = p.2) (c : List Rat) (hc : c ∈ corners box) :
+    c = box.map Prod.fst := by
+  have hc' := (mem_prodL _ _).mp hc
+  clear hc
+  induction box generalizing c with
+  | nil => simp only [List.map_nil, List.forall₂_nil_right_iff] at hc'; subst hc'; rfl
+  | cons p ps ih =>
+    simp only [List.map_cons, List.forall₂_cons_right_iff] at hc'
+    obtain ⟨a, c', ha, hc'', rfl⟩ := hc'
+    have hp := hd p (by simp)
+    simp only [List.mem_cons, List.not_mem_nil, or_false] at ha
+    have : a = p.1 := by rcases ha with rfl | rfl <;> simp [hp]
+    rw [this, ih (fun r hr => hd r (by simp [hr])) c' hc'']
+    rfl
+
+/-- and the vertex method on a zero-width box returns a zero-width interval (all corners coincide) -/
+theorem endpoints_degenerate (φ : UFun → Rat → Rat) (e : Expr) (box : Box) (hd : ∀ p ∈ box, p.1 = p.2) (V : Val)
+    (h : endpoints φ e box = .ok V) : V.lo = V.hi := by
+  obtain ⟨⟨c1, h1, e1⟩, ⟨c2, h2, e2⟩, _⟩ := endpoints_minmax_corners φ e box V h
+  rw [corners_degenerate box hd c1 h1] at e1
+  rw [corners_degenerate box hd c2 h2, e1] at e2
+  exact Except.ok.inj e2
+
+/-! ## probability levels of slicing lie in the unit interval -/
+
+/-- ★ the grid levels lie between the two probability boundaries (hence in `[0,1]`) -/
+theorem levels_in_unit (pl ph : Rat) (k : Nat) (h0 : 0 ≤ pl) (h : pl ≤ ph) (h1 : ph ≤ 1) (a : Rat)
+    (ha : a ∈ gridLevels pl ph k) : 0 ≤ a ∧ a ≤ 1 := by
+  unfold gridLevels at ha
+  obtain ⟨i, hi, rfl⟩ := List.mem_map.mp ha
+  have hi' := List.mem_range.mp hi
+  rcases Nat.eq_zero_or_pos (k - 1) with hk | hk
+  · simp only [knot, hk, Nat.cast_zero, div_zero, mul_zero, add_zero]
+    exact ⟨h0, le_trans h h1⟩
+  · have lo := knot_mono pl ph (k - 1) h 0 i (by omega)
+    have hi2 := knot_mono pl ph (k - 1) h i (k - 1) (by omega)
+    rw [knot_zero] at lo
+    rw [knot_last _ _ _ (by omega)] at hi2
+    exact ⟨le_trans h0 lo, le_trans hi2 (le_trans (le_refl _) h1)⟩
+
+example : gridLevels (1/1000) (999/1000) 3 = [1/1000, 1/2, 999/1000] := by decide +kernel
+
+/-! ## support inside the image of the supports (vertex strategy) -/
+
+/-- ★ (vertex strategy) a focal element computed by the vertex method on a box of cuts lies inside the direct
+interval image of any box containing the cuts — in particular of the box of input supports.
+For the direct strategy this is inclusion isotonicity (`C13.DirectIsotoneStatement`). -/
+theorem support_within_image_endpoints (φ : UFun → Rat → Rat) (hφ : Mono φ) (e : Expr) (cut sup : Box)
+    (hsub : SubBox cut sup) (r V : Val) (hr : endpoints φ e cut = .ok r) (hV : direct φ e sup = .ok V) :
+    V.lo ≤ r.lo ∧ r.hi ≤ V.hi := by
+  have hv : ValidBox cut := by
+    intro p hp
+    clear hr hV
+    induction hsub with
+    | nil => simp at hp
+    | cons h1 _ ih =>
+      simp only [List.mem_cons] at hp
+      rcases hp with rfl | hp
+      · exact h1.2.1
+      · exact ih hp
+  obtain ⟨⟨x1, hx1, e1⟩, ⟨x2, hx2, e2⟩⟩ := endpoints_inside_range φ e cut hv r hr
+  obtain ⟨y1, hy1, m1⟩ := fundamental φ hφ e sup x1 (inBox_of_sub hx1 hsub) V hV
+  obtain ⟨y2, hy2, m2⟩ := fundamental φ hφ e sup x2 (inBox_of_sub hx2 hsub) V hV
+  rw [e1] at hy1; rw [e2] at hy2
+  cases hy1; cases hy2
+  exact ⟨m1.1, m2.2⟩
 
 end Pun.MixedUp
